@@ -615,6 +615,14 @@ pub fn run(ctx: &Ctx) -> (Report, PropertyMeta) {
     ));
     report.merge(r);
 
+    // long runs: behaviour that depends on how many exchanges went before
+    let long: Vec<ConcCase> = vec![
+        ConcCase { clients: vec![ClientSpec { lib: true, requests: 60, per_call: 0, empty_identity: false }, ClientSpec { lib: false, requests: 60, per_call: 0, empty_identity: false }], schedule: vec![], payload_len: 5 },
+        ConcCase { clients: vec![ClientSpec { lib: false, requests: 40, per_call: 3, empty_identity: true }, ClientSpec { lib: false, requests: 40, per_call: 0, empty_identity: true }, ClientSpec { lib: true, requests: 40, per_call: 0, empty_identity: false }], schedule: vec![], payload_len: 300 },
+    ];
+    let r = run_cases(ctx, "concurrent", &long, conc_outcome);
+    report.exhaustive_parts.push("two long concurrent runs (120 exchanges each) against one REP".to_string());
+    report.merge(r);
     let n = t.pick(20_000, 400_000);
     let r = run_random(
         ctx,
